@@ -2,11 +2,11 @@ package main
 
 import (
 	"fmt"
-	"math/big"
-	"os"
 	"go/ast"
 	"go/token"
 	"go/types"
+	"math/big"
+	"os"
 	"sort"
 	"strings"
 
@@ -83,11 +83,11 @@ type blockEv struct {
 }
 
 type lockAnalysis struct {
-	w       *world
-	sites   []*site
-	calls   []callSite
-	roots   map[string]bool // contexts whose entry lock set is empty by construction
-	ctxs    map[string]bool
+	w        *world
+	sites    []*site
+	calls    []callSite
+	roots    map[string]bool // contexts whose entry lock set is empty by construction
+	ctxs     map[string]bool
 	acquires []acquire
 	blocks   []blockEv
 }
